@@ -223,6 +223,12 @@ def run_case(desc):
         s = fd.SimpleFlowDrivenStock(dims=tds, inflow=inflow, outflow=outflow, name="s")
         d = fd.InflowDrivenDSM(dims=tds, inflow=inflow, lifetime_model=fd.NormalLifetime(dims=tds, mean=3.0, std=1.0))
         results.append(s.stock)
+        # computing fills the models' own result arrays; the DRIVERS handed in (inflow, prescribed stock) stay as they are
+        d.compute()
+        for solver in ("manual", "lapack"):
+            sd_ = fd.StockDrivenDSM(dims=tds, stock=outflow, lifetime_model=fd.NormalLifetime(dims=tds, mean=3.0, std=1.0), solver=solver)
+            sd_.compute()
+        classes.append("stock-models-computed")
     elif op == "lifetime":
         tU2 = {"dims": [{"letter": "t", "name": "Time", "items": [2000, 2001, 2003], "dtype": "int"}] + [d for d in U["dims"] if d["letter"] in xl]}
         tl2 = ["t"] + [l for l in gen.uletters(U) if l in xl]
